@@ -308,6 +308,9 @@ def _prepTgForSaving(
                 continue
 
             _fillInBlanks(tier, "", minTimestamp, maxTimestamp)
+            # The tier now spans the whole file
+            tier["xmin"] = minTimestamp
+            tier["xmax"] = maxTimestamp
             if minimumIntervalLength is not None:
                 _removeUltrashortIntervals(tier, minimumIntervalLength, minTimestamp)
 
